@@ -7,8 +7,8 @@ tools/confirm_seed.sh /tmp/wt/$id $demo $dst "$@" 2>&1 | tail -1 | sed "s/^/$id 
 cp evidence/$pid.json /tmp/evidence.$pid.$$.json 2>/dev/null
 tmp=$(mktemp -d /tmp/selftest.XXXX); rsync -a --exclude .git --exclude _seed /repo/ $tmp/repo/
 (cd $tmp/repo && patch -p1 -s < /tmp/wt/$id/_seed/patch.diff) || echo "$id patch fail"
-VERIF_REPO=$tmp/repo ./check $pid 2>&1 | grep -E "^VIOLATION|^KNOWN|OK tier|FAILED tier|^  " | sed "s/^/$id /"
+VERIF_REPO=$tmp/repo flock /tmp/verif-check.lock ./check $pid 2>&1 | grep -E "^VIOLATION|^KNOWN|OK tier|FAILED tier|^  " | sed "s/^/$id /"
 rm -rf $tmp
 # the mutant run rewrote the evidence file and the generated Lean: restore the unchanged-tree state
 mv /tmp/evidence.$pid.$$.json evidence/$pid.json 2>/dev/null
-./check $pid > /dev/null 2>&1
+flock /tmp/verif-check.lock ./check $pid > /dev/null 2>&1
